@@ -421,3 +421,94 @@ abstract_result = Unit(
 )
 abstract_result.pure_callees = ["set_f_module", "update_f_module"]
 UNITS += [abstract_result]
+
+# ================================================================================================ the `this` argument (U5)
+# Both sides decide on their own whether a method gets the object as an extra first argument.  Shared rule:
+#   added  <=>  the function belongs to a class and is neither a constructor nor static;
+#   C: `[const] <class c_type> * <C_this>`  (pointer to the shadow struct)
+#   F: `type(<F_capsule_data_type>), intent(IN) :: <C_this>`  (by reference, no VALUE) -- the capsule type pairs with the
+#   shadow struct member by member (C04/T3).
+_CLS_C = ("opt", ("obj", "ClassNode", {"typemap": ("obj", "Typemap", {"c_type": "str", "base": "str"})}))
+FMT_THIS_C = ("obj", "Fmt", dict((k, "str") for k in (
+    "c_const", "c_deref", "c_member", "c_var", "C_this", "shadow_var", "SH_shadow", "CXX_this_call", "namespace_scope",
+    "class_scope", "cxx_type", "CXX_this", "cast_static", "cast1", "cast2")))
+
+this_c = Unit(
+    prop="C04", name="Wrapc.wrap_function[this]", target="shroud/wrapc.py::Wrapc.wrap_function",
+    slice=("setup_this = []", "if cls: pass"),
+    params={"cls": _CLS_C, "ast": ("obj", "Declaration", {"storage": "list[str]"}), "is_ctor": "bool", "is_const": "bool",
+            "fmt_func": FMT_THIS_C, "proto_list": "list[str]", "need_wrapper": "bool"},
+    init="p0 = len(proto_list)\n",
+    ensures=[
+        "implies(cls is None or is_ctor or 'static' in ast.storage, len(proto_list) == p0)",
+        "implies(cls is not None and not is_ctor and not ('static' in ast.storage), len(proto_list) == p0 + 1 and "
+        "cptr(proto_list[p0], ('const ' if is_const else '') + cls.typemap.c_type, fmt_func.C_this))",
+        "implies(cls is not None, need_wrapper)",
+    ],
+    defs=DEFS,
+    raises=["RuntimeError"],
+    ensures_raise=["cls is not None and cls.typemap.base != 'shadow'"],
+)
+this_c.global_callees["append_format"] = VFun("append_format[wformat model]", _append_format)
+
+_CLS_F = ("opt", ("obj", "ClassNode", {}))
+this_f = Unit(
+    prop="C04", name="Wrapf.wrap_function_interface[this]", target="shroud/wrapf.py::Wrapf.wrap_function_interface",
+    slice=('if subprogram == "subroutine": pass', "if cls: pass"),
+    params={"cls": _CLS_F, "ast": ("obj", "Declaration", {"storage": "list[str]"}), "is_ctor": "bool", "subprogram": "str",
+            "fmt_func": ("obj", "Fmt", {"C_this": "str", "F_capsule_data_type": "str", "F_C_subprogram": "str",
+                                        "F_C_result_clause": "str", "F_result": "str"}),
+            "arg_c_names": "list[str]", "arg_c_decl": "list[str]", "imports": "dict[bool]"},
+    init="n0 = len(arg_c_names)\nd0 = len(arg_c_decl)\n",
+    ensures=[
+        "implies(cls is None or is_ctor or 'static' in ast.storage, len(arg_c_names) == n0 and len(arg_c_decl) == d0)",
+        "implies(cls is not None and not is_ctor and not ('static' in ast.storage), len(arg_c_names) == n0 + 1 "
+        "and len(arg_c_decl) == d0 + 1 and arg_c_names[n0] == fmt_func.C_this "
+        "and fref(arg_c_decl[d0], 'type(' + fmt_func.F_capsule_data_type + ')', 'IN', fmt_func.C_this) "
+        "and fmt_func.F_capsule_data_type in imports and imports[fmt_func.F_capsule_data_type])",
+    ],
+    defs=DEFS,
+    raises=[],
+)
+this_f.global_callees["append_format"] = VFun("append_format[wformat model]", _append_format)
+UNITS += [this_c, this_f]
+
+# ================================================================================================ Declaration.bind_c (U2)
+# The dummy declaration of a plain argument: VALUE exactly when the argument is passed by value (attrs['value'], set by
+# generate.VerifyAttrs for non-indirect arguments), the interface type of the (template argument's) typemap, assumed-size
+# `(*)` exactly for vector / string / dimension / rank > 0 / allocatable.
+TM_B = ("obj", "Typemap", {"f_c_type": "py", "f_type": "py", "base": "str"})
+
+
+def make_bind_c(templated):
+    tm = "self.template_arguments[0].typemap" if templated else "self.typemap"
+    typ = "asstr(%s.f_c_type or %s.f_type)" % (tm, tm)
+    inten = "(intent or self.metaattrs['intent'])"
+    arr = ("(self.typemap.base == 'vector' or %s.base == 'string' or self.attrs['dimension'] or "
+           "(self.attrs['rank'] is not None and self.attrs['rank'] > 0) or self.attrs['allocatable'])" % tm)
+    u = Unit(
+        prop="C04", name="Declaration.bind_c[%s]" % ("template argument" if templated else "plain"),
+        target="shroud/declast.py::Declaration.bind_c",
+        params={"self": ("obj", "Declaration", {
+                    "attrs": "ddict[py]", "metaattrs": "ddict[py]", "typemap": TM_B, "name": "str", "typename": "str",
+                    "template_arguments": ("clist", ("obj", "Declaration", {"typemap": TM_B})) if templated else "emptylist"}),
+                "intent": ("opt", "str"), "kwargs": "ddict[py]"},
+        requires=["%s.f_c_type is None or isstr(%s.f_c_type)" % (tm, tm), "%s.f_type is None or isstr(%s.f_type)" % (tm, tm),
+                  "self.metaattrs['intent'] is None or isstr(self.metaattrs['intent'])",
+                  "kwargs['name'] is None or isstr(kwargs['name'])",
+                  "self.attrs['rank'] is None or isint(self.attrs['rank'])"],
+        ensures=[
+            "result == %s + (', value' if self.attrs['value'] else '') + "
+            "((', intent(' + asstr(%s).upper() + ')') if (%s and %s != 'result') else '') + ' :: ' + "
+            "(asstr(kwargs['name']) if kwargs['name'] else self.name) + ('(*)' if %s else '')" % (typ, inten, inten, inten, arr),
+        ],
+        raises=["RuntimeError"],
+        ensures_raise=["(%s.f_c_type or %s.f_type) is None" % (tm, tm)],
+        result="str",
+    )
+    return u
+
+
+bind_c_plain = make_bind_c(False)
+bind_c_templ = make_bind_c(True)
+UNITS += [bind_c_plain, bind_c_templ]
